@@ -2,3 +2,5 @@ import Rp2.Props.C03
 #print axioms Rp2.C03.events_exact
 #print axioms Rp2.C03.events_perm
 #print axioms Rp2.C03.each_once_in_full
+#print axioms Rp2.C03.type_table_agrees
+#print axioms Rp2.C03.transfer_taxed_iff_fee
